@@ -422,3 +422,49 @@ func zzC16TypedNumber() {
 	vAssert(got.ID == int64(id), "C16.typed-input-carries-the-number-the-client-sent")
 	vReach("end")
 }
+
+// C16 for the documented special case In == any without an InputSchema: the tool advertises {"type":"object"} and its
+// arguments are validated against that like any other tool's — an array, a string, a number never reach the handler;
+// absent or null arguments reach it as the empty object.
+func zzC16AnyInput() {
+	env := &zzSchemaEnv{in: &jsonschema.Resolved{}, out: &jsonschema.Resolved{}}
+	zzS = env
+	env.inValid, env.outValid, env.outRootType = true, true, "object"
+	zzSS = &zzSetSchemaEnv{resolvedOf: map[*jsonschema.Resolved]*jsonschema.Schema{}}
+	calls := 0
+	var gotIn any
+	h := func(ctx context.Context, req *CallToolRequest, in any) (*CallToolResult, any, error) {
+		calls++
+		gotIn = in
+		return &CallToolResult{}, nil, nil
+	}
+	tool := &Tool{Name: "t"}
+	_, th, err := toolForErr[any, any](tool, h, nil)
+	vAssert(err == nil && th != nil, "C16.any.wrapper-built")
+	req := &CallToolRequest{Params: &CallToolParamsRaw{Name: "t"}}
+	kind := vChoice("arguments", 4)
+	switch kind {
+	case 1:
+		req.Params.Arguments = json.RawMessage("null")
+	case 2:
+		req.Params.Arguments = vJSON(map[string]any{"q": "go"})
+	case 3:
+		req.Params.Arguments = [][]byte{vJSON([]any{"go"}), vJSON("go"), vJSON(42.0), vJSON(true)}[vChoice("nonObjectKind", 4)]
+	}
+	res, herr := th(context.Background(), req)
+	if kind == 3 {
+		vAssert(calls == 0, "C16.handler-not-run-on-invalid-input")
+		vAssert(herr == nil && res != nil && res.IsError, "C16.invalid-input-is-a-tool-level-error")
+		vReach("non-object")
+	} else {
+		vAssert(calls == 1 && herr == nil && res != nil && !res.IsError, "C16.any.valid-input-runs-the-handler")
+		m, isMap := gotIn.(map[string]any)
+		vAssert(isMap && m != nil, "C16.any.handler-receives-an-object")
+		if kind == 2 {
+			vAssert(m["q"] == "go", "C16.any.handler-receives-exactly-the-arguments")
+		}
+		// (absent or null arguments: an object holding whatever defaults the schema stub applies — never nil)
+		vReach("served")
+	}
+	vReach("end")
+}
